@@ -251,6 +251,38 @@ def bytes_input(ctx, ensure_ascii):
     return ctx.done(ok, ctx.observe(b))
 
 
+def two_writes(ctx, via):
+    """state left by an earlier write: an array written after another one comes back with its own metadata only"""
+    import json
+    l1 = ctx.labels('i', 2, 'la')
+    l2 = ctx.labels('i', 2, 'lb')
+    a = ctx.mk(['x'], [l1], ctx.cells('f', 2, 'va'), attrs={'units': 'K', 'note': 'first', 'scale': 2})
+    b = ctx.mk(['x'], [l2], ctx.cells('f', 2, 'vb'), attrs={'units': 'm'})
+    c = ctx.mk(['x'], [l2], ctx.cells('f', 2, 'vc'))
+    saved = (json.dumps, json.loads)
+    if ctx.sym:
+        ch = _Channel(ctx.symx)
+        json.dumps, json.loads = ch.dumps, ch.loads
+    try:
+        def rt(x):
+            if via == 'json':
+                return ctx.da.DimArray.from_json(x.to_json())
+            return ctx.da.DimArray.from_jsondict(x.to_jsondict())
+        r = ctx.call(lambda: [rt(a), rt(b), rt(c), rt(a)])
+    finally:
+        json.dumps, json.loads = saved
+    if r[0] != 'ok':
+        return ctx.done(False, r[1])
+    ra, rb, rc, ra2 = r[1]
+    ok = ctx.AND(dict(ra.attrs) == {'units': 'K', 'note': 'first', 'scale': 2}, dict(rb.attrs) == {'units': 'm'}, dict(rc.attrs) == {},
+                 dict(ra2.attrs) == {'units': 'K', 'note': 'first', 'scale': 2}, ra.attrs is not ra2.attrs)
+    # editing a restored array's metadata does not reach the others
+    ra.attrs['units'] = 'changed'
+    rb.attrs['extra'] = 1
+    ok = ctx.AND(ok, ra2.attrs.get('units') == 'K', 'extra' not in rc.attrs, a.attrs.get('units') == 'K')
+    return ctx.done(ok, [sorted(rb.attrs.keys()), sorted(rc.attrs.keys())])
+
+
 def templates():
     ts = []
 
@@ -284,6 +316,8 @@ def templates():
                 'quick' if shape != [3, 3, 3] else 'thorough', cost=0.5, shape=shape, group=group, via=via)
     for ea in (True, False):
         add('bytes-input-%s' % ea, 'bytes_input', cost=0.1, ensure_ascii=ea)
+    for via in ('json', 'jsondict'):
+        add('two-writes-%s' % via, 'two_writes', cost=0.2, via=via)
     add('jsondict-shape', 'jsondict_shape', cost=0.2)
     for via in ('json', 'jsondict'):
         add('special-values-%s' % via, 'special_values', cost=0.2, via=via)
